@@ -226,7 +226,8 @@ def attr_specs():
     scopes_all = ['CLASS', 'ASSOCIATION', 'REFERENCE', 'PROPERTY', 'METHOD', 'PARAMETER', 'INDICATION']
     scope_sets = [None, {}] + [{s: True} for s in scopes_all] + \
         [{a: True, b: True} for a, b in itertools.combinations(scopes_all, 2)] + \
-        [{s: True for s in scopes_all}, {'CLASS': True, 'METHOD': False}, {'ANY': True}]
+        [{s: True for s in scopes_all}, {'CLASS': True, 'METHOD': False}, {'ANY': True},
+         {'CLASS': True, 'ANY': False}]
     for sc in scope_sets:
         yield ['qdecl', 'Q', 'string', {'scopes': sc}]
         yield ['qdecl', 'Q', 'uint8', {'scopes': sc, 'is_array': True, 'value': ['a', [['i', 'uint8', 1]]]}]
